@@ -4,7 +4,7 @@
    tests `avail < sizeof(WBSAVEPOINT)` is the regenerated fact Scan.sp_checks. *)
 Require Import ZArith List Bool. Require Import IW.Lib.CInt IW.Gen.Facts.
 Require Import IW.WAL.Rec IW.WAL.Rec_proofs IW.WAL.Scan IW.WAL.Scan_proofs IW.WAL.Replay IW.WAL.Replay_proofs.
-Require Import IW.WAL.Proto IW.WAL.Proto_proofs.
+Require Import IW.WAL.Proto IW.WAL.Proto_proofs IW.WAL.Segs_proofs IW.WAL.Flip_proofs.
 Import ListNotations. Local Open Scope Z_scope.
 
 (* a log with three segments, two savepoints and an unfinished tail; an 8-byte main file *)
@@ -132,3 +132,75 @@ Theorem C05_recover_open_is_savepoint_state : forall (c : pcfg) rs (n : nat) mai
   recover_open c (firstn n (encode rs)) main = (VOk, m, ops_before rs 0 (last_sp sp_checks rs (Z.of_nat n))).
 Proof. exact (fun c rs n main m => recover_open_is_savepoint_state c rs n main m eq_refl). Qed.
 Print Assumptions C05_recover_open_is_savepoint_state.
+
+(* ---- corruption of checksum-covered bytes, checksums written and checked (was: sampled by checks/C05.py only).
+   The len bytes covered by a segment header (or the payload of a WRITE record) of an intact log are replaced by ANY
+   bytes X' of the same length - every position, every mask, every multi-byte pattern is such an X'.  Then the replay
+   reports CORRUPTED_WAL, or stops with rc 0 at a genuine savepoint at or before the damaged segment (q = 0: nothing
+   applied), unless: the stored checksum is 0 (the reader takes 0 for "none"), X' has the checksum of the original
+   bytes (collision of iwu_crc32; X' = the original bytes is the trivial one), or the scanner - which verifies no
+   checksum - found a reset mark in the damaged log.  Nothing else lets a change of covered bytes pass. *)
+Theorem C05_flip_in_segment : forall Rpre crc len Rrest X',
+  let R := Rpre ++ RSep crc len :: Rrest in
+  wf_log R = true -> crc_ok R = true -> sep_fit Rpre 0 (size Rpre) = true -> len <= size Rrest -> lenZ X' = len ->
+  let L' := damaged (encode R) (size Rpre + sizeof_WBSEP) X' in
+  crc = 0 \/ crc32 X' 0 = crc \/ snd (scan L') <> 0 \/
+  fst (replay_ops true 1 0 L') = VCorrupt \/
+  (exists q, (q = 0 \/ In q (sp_offsets R 0)) /\ q <= size Rpre /\ replay_ops true 1 0 L' = (VOk, ops_before R 0 q)).
+Proof. exact flip_in_segment_cases. Qed.
+Print Assumptions C05_flip_in_segment.
+
+Theorem C05_flip_in_payload : forall Rpre crc off payload Rrest X',
+  let R := Rpre ++ RWrite crc off payload :: Rrest in
+  wf_log R = true -> crc_ok R = true -> sep_fit Rpre 0 (size Rpre + sizeof_WBWRITE) = true ->
+  length X' = length payload -> forallb (fun b => (0 <=? b) && (b <? 256)) X' = true ->
+  let L' := damaged (encode R) (size Rpre + sizeof_WBWRITE) X' in
+  crc = 0 \/ crc32 X' 0 = crc \/ snd (scan L') <> 0 \/
+  fst (replay_ops true 1 0 L') = VCorrupt \/
+  (exists q, (q = 0 \/ In q (sp_offsets R 0)) /\ q <= size Rpre /\ replay_ops true 1 0 L' = (VOk, ops_before R 0 q)).
+Proof. exact flip_in_payload_cases. Qed.
+Print Assumptions C05_flip_in_payload.
+
+(* detection proper: a change that alters the checksum, nonzero stored checksum, no reset mark seen by the scanner *)
+Theorem C05_flip_detected : forall Rpre crc len Rrest X',
+  let R := Rpre ++ RSep crc len :: Rrest in
+  wf_log R = true -> crc_ok R = true -> sep_fit Rpre 0 (size Rpre) = true -> len <= size Rrest -> lenZ X' = len ->
+  let L' := damaged (encode R) (size Rpre + sizeof_WBSEP) X' in
+  snd (scan L') = 0 -> crc <> 0 -> crc32 X' 0 <> crc ->
+  let f := fst (scan L') in
+  replay_ops true 1 0 L' =
+    if f =? 0 then (VOk, []) else
+    if existsb (Z.eqb f) (sp_offsets Rpre 0) then (VOk, ops_before R 0 f) else (VCorrupt, bops Rpre).
+Proof. exact flip_in_segment. Qed.
+Print Assumptions C05_flip_detected.
+
+(* the hypotheses are satisfiable: the log of three synced stores written with checksums (Flip_proofs.rb_log);
+   second segment = 4th record, 36 covered bytes at offset 57.  All outcomes of the theorem occur:
+   - one flipped bit in a WRITE opcode (3 -> 2 = COPY, 28 bytes instead of 24): the scanner lands inside the
+     savepoint record, whose timestamp byte happens to be 6 = WOP_RESET: third escape, here harmless (rc 0, nothing
+     applied, q = 0 - but every savepoint of the log is dropped);
+   - one byte changed inside the payload: CORRUPTED_WAL after the first segment's store;
+   - all 36 bytes zeroed: the scanner stops there, the replay ends at the first savepoint (q = 33, rc 0);
+   - the payload of the first WRITE record changed: CORRUPTED_WAL before anything is applied. *)
+Definition fx_body : bytes := firstn 36 (skipn 57 rb_log).
+Example C05_flip_in_segment_ex :
+  wf_log rb_R = true /\ crc_ok rb_R = true /\ sep_fit (firstn 3 rb_R) 0 (size (firstn 3 rb_R)) = true /\
+  size (firstn 3 rb_R) + sizeof_WBSEP = 57 /\ 36 <= size (skipn 4 rb_R) /\
+  map (fun X' => (snd (scan (damaged rb_log 57 X')), replay_ops true 1 0 (damaged rb_log 57 X')))
+      [Z.lxor (nth 0 fx_body 0) 1 :: skipn 1 fx_body; firstn 24 fx_body ++ [1] ++ skipn 25 fx_body; repeat 0 36%nat] =
+    [(85, (VOk, [])); (0, (VCorrupt, [AWrite 0 [1]])); (0, (VOk, [AWrite 0 [1]]))] /\
+  replay_ops true 1 0 (damaged rb_log 32 [0]) = (VCorrupt, []) /\ replay_ops true 1 0 rb_log = (VOk, [AWrite 0 [1]; AWrite 1 [2;2;2;2]; AWrite 5 [3]]).
+Proof. vm_compute. repeat split; try reflexivity; discriminate. Qed.
+
+(* ... and the third escape is real (known finding C05-reset-mark-bypass, replayed on the library by checks/C05.py):
+   36 covered bytes overwritten by reset records and a segment header with checksum 0: rc 0, the first two synced
+   operations are skipped, the third is applied *)
+Theorem C05_reset_mark_bypass_refuted :
+  (encode rb_R = rb_log /\ wf_log rb_R = true /\ crc_full rb_R = true /\ no_reset rb_R = true /\
+   sp_offsets rb_R 0 = [33; 81; 126] /\ map rec_size (firstn 4 rb_R) = [12; 21; 12; 12] /\
+   match nth 3 rb_R RReset with RSep crc len => negb (crc =? 0) && (len =? 36) | _ => false end = true) /\
+  length rb_X' = 36%nat /\ scan rb_L' = (126, 89) /\
+  rb_view (recover true 1 0 rb_L' rb_main) = (VOk, [AWrite 5 [3]], 0, 3) /\
+  rb_view (recover true 1 0 rb_log rb_main) = (VOk, [AWrite 0 [1]; AWrite 1 [2;2;2;2]; AWrite 5 [3]], 1, 3).
+Proof. exact reset_mark_bypass_refuted. Qed.
+Print Assumptions C05_reset_mark_bypass_refuted.
